@@ -88,6 +88,29 @@ def h_dot(ctx, fn, lshape, rshape, kinds, D, P):
         ctx.eq(plain(y.data), Y, 'right operand unchanged')
 
 
+def h_iouter(ctx, lshape, rshape, D, P):
+    """UTPM.iouter(x, y, out): out += x y^T in Taylor arithmetic (the accumulating form of outer);
+    the result object is `out`, x and y stay unchanged."""
+    algopy = symx.load_algopy()
+    X = V(ctx, 'x', (D, P) + tuple(lshape))
+    Y = V(ctx, 'y', (D, P) + tuple(rshape))
+    O = V(ctx, 'o', (D, P, lshape[0], rshape[0]))
+    x, y, o = mk_utpm(ctx, algopy, X), mk_utpm(ctx, algopy, Y), mk_utpm(ctx, algopy, O)
+    try:
+        r = algopy.UTPM.iouter(x, y, o)
+    except Exception as e:
+        ctx.fact(False, 'iouter raised %s: %s' % (type(e).__name__, str(e)[:120]))
+        return
+    ctx.fact(r is o, 'iouter returns its out argument')
+    Z = plain(o.data)
+    for p in range(P):
+        ref = ps_binop(np.outer, [X[d, p] for d in range(D)], [Y[d, p] for d in range(D)], D)
+        for d in range(D):
+            ctx.eq(Z[d, p], O[d, p] + ref[d], 'out + outer(x, y) order %d dir %d' % (d, p))
+    ctx.eq(plain(x.data), X, 'left operand unchanged')
+    ctx.eq(plain(y.data), Y, 'right operand unchanged')
+
+
 def h_trace(ctx, n, D, P, m=None):
     algopy = symx.load_algopy()
     m = n if m is None else m
@@ -417,6 +440,8 @@ def units(tier, seed):
         add('expm_pade(q=%d)/1x1/D3,P2' % q, 'h_expm_pade', q=q, n=1, D=3, P=2)
     for q in (3, 5):
         add('expm_pade(q=%d)/2x2/D2,P1' % q, 'h_expm_pade', o={'unit_timeout': 600}, q=q, n=2, D=2, P=1)
+    add('iouter/(2,)x(3,)/D3,P2', 'h_iouter', lshape=(2,), rshape=(3,), D=3, P=2)
+    add('iouter/(2,)x(2,)/D4,P1', 'h_iouter', lshape=(2,), rshape=(2,), D=4, P=1)
     for nrm in ('1/100', '1/10', '1/2', '3/2', '2'):
         add('expm_higham_2005/3x3 at 1-norm %s (float-decided)' % nrm, 'h_expm_higham', norm=nrm)
     if tier != 'quick':
